@@ -86,6 +86,32 @@ CLAIMED.update({
                   "checking of tee interleavings + replay + TLC trace validation"),
 })
 
+CLAIMED.update({
+    "C15": dict(
+        text="AioPortal.tla: implementation-shaped model of BlockingPortal (caller threads, marshalling into the loop "
+             "thread, _call_func with its own scope tied to the concurrent future, start_task, stop, "
+             "start_blocking_portal exit, race switches at the Future lock and at _check_running) checked "
+             "exhaustively by TLC against the observer P_Portal (ExactlyOnce, Answered*, CancelHitsThatTask, "
+             "RefusedAfterStop, JoinOnExit, NothingOrphaned); TLC-generated scenarios are replayed on a real "
+             "portal (asyncio and uvloop) step by step at quiescent points and the traces validated by T_Portal.",
+        design_ref="DESIGN.md section 3 (C15)",
+        note="coarser binding: real threads are stepped at quiescent points, interleavings inside one step are "
+             "covered by the model only; concurrent.futures and asyncio FIFO order are environment; two races "
+             "found by TLC are recorded as known findings F13, F14",
+        technique="TLA+ model checking (TLC) + quiescent-step replay on real threads + TLC trace validation"),
+    "C16": dict(
+        text="BufStream.tla is the buffered-receive stream machine and TextStream.tla the incremental encoder / "
+             "decoder machine; TLC proves every machine transition satisfies the observers P_ByteWrap / P_TextWrap "
+             "and emits the full transition graph over byte strings over {0,1} up to length 5-6, all chunkings, both "
+             "kinds of wrapped stream, receive / receive_exactly / receive_until / feed_data, and all texts of <= 4-5 "
+             "abstract characters with all split points for 7 encoding shapes; every transition becomes one call on "
+             "the real wrappers; seeded longer random traces are judged by TLC (T_ByteWrap, T_TextWrap).",
+        design_ref="DESIGN.md section 3 (C16)",
+        note="exhaustive byte part over alphabet {0,1}; larger alphabets random; wrapped stream never blocks; "
+             "errors= other than strict not generated",
+        technique="TLA+ state machine enumerated by TLC, one implementation test per transition + TLC trace validation"),
+})
+
 NOT_YET = "check not built yet in this round (planned, see DESIGN.md section 3)"
 
 def main():
